@@ -129,6 +129,7 @@ class OptimizationResult(BaseModel):
     evolution: list[Population] = field(default_factory=list)
     rates: list[float] = field(default_factory=list)
     best_solution: Agent | None = None
+    task_type: TaskType = TaskType.MIN
 
     # initialize the best_solution by considering the task type: if it is a minimization task, it is accepted as is;
     # otherwise, the position is multiplied by -1
